@@ -174,6 +174,9 @@ def check_vector(vec, seed, full):
               vec['sprot'])
         judge(f'lib SUMPRODUCT self|{h}x{w}', call(excellib.sumproduct, M, M),
               vec['spself'])
+        ones = tuple((1,) * w for _ in range(h))
+        judge(f'lib SUMPRODUCT ones|{h}x{w}', call(excellib.sumproduct, ones, M),
+              vec['sum'] if errfree else vec['errs'])
     # permuted cells as separate arguments / as one row
     P = tuple(vals[i] for i in perm)
     for fn in FNS:
@@ -200,8 +203,16 @@ def check_vector(vec, seed, full):
         sh.formula(f'=SUMPRODUCT({ref(rr, 1, h, w)},{R})', vec['sprot'],
                    f'SUMPRODUCT(rotated,range){tag}')
         sh.formula(f'=SUMPRODUCT({R},{R})', vec['spself'], f'SUMPRODUCT(range,range){tag}')
+        # against a range of ones the products are the cells themselves
+        # (SumProductLaw): the SUM of the numeric cells, or an error of the range
+        ro = sh.place([1] * n, h, w)
+        as_sum = vec['sum'] if errfree else vec['errs']
+        sh.formula(f'=SUMPRODUCT({R},{ref(ro, 1, h, w)})', as_sum,
+                   f'SUMPRODUCT(range,ones){tag}')
+        sh.formula(f'=SUMPRODUCT({ref(ro, 1, h, w)},{R})', as_sum,
+                   f'SUMPRODUCT(ones,range){tag}')
         # one range: the products are the cells themselves (SumProductLaw, Ones)
-        sh.formula(f'=SUMPRODUCT({R})', vec['sum'] if errfree else vec['errs'],
+        sh.formula(f'=SUMPRODUCT({R})', as_sum,
                    f'SUMPRODUCT(range){tag}')
         # the transposed rectangle (a permutation of the cells)
         if h > 1 and w > 1 or si == 0:
